@@ -338,11 +338,16 @@ func (n *MethodParameterNode) String() string {
 		buff.WriteString("**")
 	}
 
-	if n.SetInstanceVariable {
+	if ident, ok := n.Name.(*PublicIdentifierNode); ok && n.SetInstanceVariable {
+		// the name of an instance variable, may begin with an underscore or a capital letter
 		buff.WriteRune('@')
+		buff.WriteString(ident.Value)
+	} else {
+		if n.SetInstanceVariable {
+			buff.WriteRune('@')
+		}
+		buff.WriteString(n.Name.String())
 	}
-
-	buff.WriteString(n.Name.String())
 
 	if n.TypeNode != nil {
 		buff.WriteString(": ")
